@@ -112,7 +112,11 @@ def fmt(a):
     return np.array2string(np.asarray(a), precision=6, separator=",").replace("\n", "")
 
 
-def c04_check(impl, model, ids, check_base=True):
+def c04_check_approx(impl, model, ids):
+    return c04_check(impl, model, ids, exact=False)
+
+
+def c04_check(impl, model, ids, check_base=True, exact=True):
     names = model.order
     for n in names:
         t = impl.t[n]
@@ -124,7 +128,7 @@ def c04_check(impl, model, ids, check_base=True):
             return ("shape", n, "impl %r model %r" % (d.shape, a.shape))
         if d.dtype != a.dtype:
             return ("dtype", n, "impl %s model %s" % (d.dtype, a.dtype))
-        if not np.array_equal(d, a, equal_nan=True):
+        if not (np.array_equal(d, a, equal_nan=True) if exact else np.allclose(d, a, rtol=1e-12, atol=1e-300, equal_nan=True)):
             return ("value", n, "impl %s model %s" % (fmt(d), fmt(a)))
         if t.constant != model.const[n]:
             return ("constant", n, "impl %r model %r" % (t.constant, model.const[n]))
